@@ -41,7 +41,7 @@ def run(tier):
                       "memcheck's definedness propagation is the taint engine (bit-precise for the logic operations ASCON uses)"]
     b = bins(cfgs(tier))
     ev.configs = [n for n, _ in b]
-    rcrun.run_rc(ev, b, [("c11_taint", 2400 if tier == "quick" else 30000, 100)], None, wrapper=VG, timeout=6000)
+    rcrun.run_rc(ev, b, [("c11_taint", 6000 if tier == "quick" else 60000, 100)], None, wrapper=VG, timeout=6000)
     # enrich every violation with the report text (re-run the shrunk case under valgrind)
     bm = dict(b)
     newv = []
